@@ -119,7 +119,7 @@ def prepareDelta (diff : Tree → Tree → List Change) (snap r : Repo) (brs : L
 structure Shard where
   docs : Files
   tombs : List Path
-  deriving Repr
+  deriving Repr, DecidableEq
 
 /-- the index directory of one repository: shards oldest first, and what `Repository.Branches` records
     (branch names in order; the commit of each, represented by the repository state at indexing time) -/
